@@ -84,6 +84,12 @@ def check(run):
                 scs.append(plan(S, h, rng, pending, e))
                 if any(o == "commit" for o, _ in h) and (len(h) <= 2 or rng.random() < 0.3):
                     scs.append(plan(S, h, rng, pending, e, bare_commit=True))
+    # EVERY end-of-day outcome (completion, each of the 256 abort codes) in both tiers, for the shortest histories that go idle by a
+    # commit and by a cancel, without and with a dangling pre-authorisation: only 0xA0 is tolerated
+    for h in ((("begin", "A"), ("commit", "A")), (("begin", "A"), ("cancel", "A"))):
+        for pending in (None, 4711):
+            for c in range(256):
+                scs.append(plan(S, h, rng, pending, c))
     cases, mo, io = run_scenarios(run, scs, "c19")
     diffs = judge(run, scs, cases, mo, io,
                   "a completed commit/cancel that leaves no transaction open is followed at once by the pending query, the reversal of the reported "
